@@ -1,9 +1,10 @@
 (** C16 — control files and IP/domain lists mean what the administrator wrote.
     Only statements here; proofs live in Proofs/FindDomainProofs.v, MatchNetProofs.v,
-    IpblProofs.v, ControlTheorems.v.  The models are those of the C with
-    fixes/C16-finddomain-bound.diff and fixes/C16-ipbl-validate-first.diff applied. *)
-From Qv Require Import Common.Bytes Gen.GenControl Model.FindDomain Model.MatchNet Spec.ControlSpec
-  Proofs.FindDomainProofs Proofs.MatchNetProofs Proofs.IpblProofs Proofs.ControlTheorems.
+    IpblProofs.v, LoadFileProofs.v, ControlTheorems.v.  The models are those of the C with
+    fixes/C16-finddomain-bound.diff, fixes/C16-ipbl-validate-first.diff and
+    fixes/C16-loadint-strict.diff applied. *)
+From Qv Require Import Common.Bytes Gen.GenControl Model.FindDomain Model.MatchNet Model.LoadFile Spec.ControlSpec
+  Proofs.FindDomainProofs Proofs.MatchNetProofs Proofs.IpblProofs Proofs.LoadFileProofs Proofs.ControlTheorems.
 
 (** ---- rcpthosts-style lists: lib/control.c:finddomain ----
     For every list content and every query name (a C string): the lookup reads
@@ -113,6 +114,50 @@ Theorem C16_ipbl_orig_lazy :
 Proof. exact check_ipbl_orig_lazy. Qed.
 Print Assumptions C16_ipbl_orig_lazy.
 
+(** ---- list-type control files: lib/control.c:loadlistfd (no check callback) over lloadfilefd mode 3 ----
+    For every file content: the loader does not crash and either rejects the
+    file (EINVAL) or returns exactly [list_spec]: the lines (ended by LF; a NUL
+    ends a line too), each cut at its first '#' that is not preceded by a
+    backslash and stripped of trailing blanks/tabs, empty ones dropped, in
+    order.  It rejects the file exactly when some line has a blank or tab that
+    is followed, before the end of the line, by anything but blanks/tabs
+    (a second word, or a comment after a blank). *)
+Theorem C16_loadlist : forall content,
+  loadlist content = Ok (match list_spec content with None => LErr | Some es => LOk es end).
+Proof. exact loadlist_correct. Qed.
+Print Assumptions C16_loadlist.
+
+(** reading aids for [line_entry], the per-line part of [list_spec] *)
+Theorem C16_line_entry_cases :
+  (forall w bl, Forall plain_byte w -> forallb is_blank bl = true -> line_entry (w ++ bl) = Some w) /\
+  (forall w c, Forall plain_byte w -> last w 0%N <> 92%N -> line_entry (w ++ 35%N :: c) = Some w) /\
+  (forall w bl b x r, Forall plain_byte w -> is_blank b = true -> forallb is_blank bl = true -> is_blank x = false ->
+                      line_entry (w ++ b :: bl ++ x :: r) = None).
+Proof.
+  split; [exact line_entry_trailing_blanks|]. split; [exact line_entry_comment|exact line_entry_inner_blank].
+Qed.
+Print Assumptions C16_line_entry_cases.
+
+(** ---- numeric control files: lib/control.c:loadintfd (strict form) ----
+    For every file content and default: the result is [int_spec]: the default
+    when the file has no entry (empty, only comments/blank lines), the value
+    when it has exactly one entry and that is a decimal numeral not above
+    2^64-1, and an error (EINVAL) in every other case (a second entry, a sign,
+    a letter, overflow, an inner blank). *)
+Theorem C16_loadint : forall content def,
+  loadint content def = Ok (match int_spec content def with None => LErr | Some v => LOk v end).
+Proof. exact loadint_correct. Qed.
+Print Assumptions C16_loadint.
+
+(** F-C16-3 on record: the code before the fix read "#c<LF>17<LF>" as 0 and "1<LF>2<LF>" as 1 *)
+Theorem C16_loadint_orig_silent :
+  loadint_orig [35; 99; 10; 49; 55; 10]%N 4242%N = Ok (LOk 0%N)
+  /\ int_spec [35; 99; 10; 49; 55; 10]%N 4242%N = Some 17%N
+  /\ loadint_orig [49; 10; 50; 10]%N 4242%N = Ok (LOk 1%N)
+  /\ int_spec [49; 10; 50; 10]%N 4242%N = None.
+Proof. exact loadint_orig_silent. Qed.
+Print Assumptions C16_loadint_orig_silent.
+
 (** the hypotheses are satisfiable by non-trivial inputs *)
 Example C16_nonvacuous :
   let lst := [35;120;10; 46;101;120;46;111;114;103;32;9;10;10; 65;46;99;111;109]%N in   (* "#x\n.ex.org \t\n\nA.com" *)
@@ -123,5 +168,12 @@ Example C16_nonvacuous :
   /\ ip4_matchnet [0;0;0;0;0;0;0;0;0;0;255;255;192;0;2;129]%N [192;0;2;0]%N 25%N = Ok false
   /\ ip4_matchnet [0;0;0;0;0;0;0;0;0;0;255;255;192;0;2;129]%N [192;0;2;0]%N 24%N = Ok true
   /\ check_ip6 [32;1;13;184;0;0;0;0;0;0;0;0;0;0;0;1]%N ([32;1;13;184;0;0;0;0;0;0;0;0;0;0;0;0;32]%N
-               ++ [32;1;13;184;0;0;0;0;0;0;0;0;0;0;0;0;129]%N) = Ok (-1)%Z.
+               ++ [32;1;13;184;0;0;0;0;0;0;0;0;0;0;0;0;129]%N) = Ok (-1)%Z
+  (* "a.org \n#c\nb\\#x#y\n\nc" *)
+  /\ loadlist [97;46;111;114;103;32;10; 35;99;10; 98;92;35;120;35;121;10; 10; 99]%N
+     = Ok (LOk [[97;46;111;114;103]; [98;92;35;120]; [99]]%N)
+  /\ loadlist [97;32;98;10]%N = Ok LErr
+  /\ loadint [35;99;10;49;55;10]%N 4242%N = Ok (LOk 17%N)
+  /\ loadint [10]%N 4242%N = Ok (LOk 4242%N)
+  /\ loadint [45;49;10]%N 4242%N = Ok LErr.
 Proof. vm_compute. repeat split; reflexivity. Qed.
